@@ -264,10 +264,10 @@ PROPS["C18"] = {
     "assumptions": ["interleavings are sampled (barrier release, GOMAXPROCS), not enumerated", "the race detector only sees races on executed paths"],
 }
 
-RULES["C13"] = ("a directory tree in a scratch dir: 1..40 sample files (2*10^4 scale; 1..3 at 10^6; 1..4 short files for the 10^8 worker), suffix .bin/.dat, random safe base names (duplicates across sub-directories allowed), nesting depth 0..3, "
+RULES["C13"] = ("a directory tree in a scratch dir: 1..40 sample files (2*10^4 scale; 1..3 at 10^6; 1..4 short files for the 10^8 worker), suffix .bin/.dat, base names from [a-zA-Z0-9_-] and, one in four, from characters special to formatters/shells/CSV readers such as '%', space, quotes, brackets, non-ASCII (duplicates across sub-directories allowed), nesting depth 0..3, "
                 "0..5 non-sample files of other suffixes, sometimes a directory whose name ends in .bin/.dat; contents uniform/biased/markov/periodic/constant/sparse/run-list; -n in 1..64, GOMAXPROCS in {1,2,16}; the input directory is given as an absolute path, as 'in', './in', '../<dir>/in', with a trailing slash, or is a directory whose name starts with a dot; in a third of the runs the -o path already holds an older report (1 byte .. 400 KB). The built rddetector binary is run "
                 "end to end at the 2*10^4 and 10^6 scales; worker_1E8 is driven directly through a go test -overlay shim on 100000..200000-bit files; main's scale switch for 10^8 is observed on sparse 12.5 MB files (header line read, process killed). "
-                "Some shards pin 'one worker, >= 2-3 files' (a worker then handles consecutive files) and some run a -race build of the binary / shim (a race report is a violation). oracle: exit status 0 within the budget (a stuck child gets SIGQUIT: all goroutines blocked = violation, merely slow = inconclusive); report = the scale's header + exactly one row per sample file (multiset on base names, rows of equal name matched by values); "
+                "One deterministic shard processes 1100 files (3000 thorough) in nested directories with 3 and with 64 workers under the usual descriptor limit of 1024. Some shards pin 'one worker, >= 2-3 files' (a worker then handles consecutive files) and some run a -race build of the binary / shim (a race report is a violation). oracle: exit status 0 within the budget (a stuck child gets SIGQUIT: all goroutines blocked = violation, merely slow = inconclusive); report = the scale's header + exactly one row per sample file (multiset on base names, rows of equal name matched by values); "
                 "every cell equals, to 6 decimals (+-1 unit), the library's P/Q value for the test, parameter and component that the header column names. non-trivial: >= 2 files and a worker count different from the file count. distinct: hash of the case JSON.")
 PROPS["C13"] = {
     "level": "exploration",
@@ -277,28 +277,29 @@ PROPS["C13"] = {
              + [S("TestC13", 1, env={"VERIF_SCALE": "1E6"}, floor=1, weight=3), S("TestC13", 1, env={"VERIF_SCALE": "1E6", "VERIF_WORKERS": 1, "VERIF_MINFILES": 3}, floor=1, weight=2),
                 S("TestC13", 1, env={"VERIF_SCALE": "1E6", "VERIF_WORKERS": 1, "VERIF_MINFILES": 2, "VERIF_MAXFILES": 2, "VERIF_RACE_BIN": 1}, floor=1, weight=2)]
              + [S("TestC13", 2, env={"VERIF_SCALE": "1E8"}, floor=1, weight=2), S("TestC13", 1, env={"VERIF_SCALE": "1E8", "VERIF_WORKERS": 1, "VERIF_MINFILES": 2, "VERIF_RACE_BIN": 1}, floor=1, weight=2),
-                S("TestC13", 1, env={"VERIF_SCALE": "1E8hdr"}, floor=1)],
+                S("TestC13", 1, env={"VERIF_SCALE": "1E8hdr"}, floor=1), S("TestC13ManyFiles", floor=2, weight=2)],
     "thorough": [S("TestC13", 600, env={"VERIF_SCALE": "2E4"}, floor=150, timeout=3400) for _ in range(4)]
              + [S("TestC13", 60, env={"VERIF_SCALE": "2E4", "VERIF_RACE_BIN": 1}, floor=20, weight=2, timeout=3400), S("TestC13", 40, env={"VERIF_SCALE": "2E4", "VERIF_RACE_BIN": 1, "VERIF_WORKERS": 1, "VERIF_MINFILES": 3}, floor=10, weight=2, timeout=3400)]
              + [S("TestC13", 8, env={"VERIF_SCALE": "1E6"}, floor=3, weight=3, timeout=3400) for _ in range(2)]
              + [S("TestC13", 5, env={"VERIF_SCALE": "1E6", "VERIF_WORKERS": w, "VERIF_MINFILES": 3}, floor=2, weight=2, timeout=3400) for w in (1, 2)]
              + [S("TestC13", 3, env={"VERIF_SCALE": "1E6", "VERIF_WORKERS": 1, "VERIF_MINFILES": 2, "VERIF_RACE_BIN": 1}, floor=1, weight=2, timeout=3400)]
              + [S("TestC13", 25, env={"VERIF_SCALE": "1E8"}, floor=8, weight=2, timeout=3400) for _ in range(2)]
-             + [S("TestC13", 6, env={"VERIF_SCALE": "1E8", "VERIF_WORKERS": 1, "VERIF_MINFILES": 2, "VERIF_RACE_BIN": 1}, floor=2, weight=2, timeout=3400), S("TestC13", 3, env={"VERIF_SCALE": "1E8hdr"}, floor=1)],
+             + [S("TestC13", 6, env={"VERIF_SCALE": "1E8", "VERIF_WORKERS": 1, "VERIF_MINFILES": 2, "VERIF_RACE_BIN": 1}, floor=2, weight=2, timeout=3400), S("TestC13", 3, env={"VERIF_SCALE": "1E8hdr"}, floor=1),
+                S("TestC13ManyFiles", floor=2, weight=2, env={"VERIF_FILES": 3000}, timeout=3400)],
     "assumptions": ["the 10^8 scale is not run end to end (linear complexity m=5000 on 10^8 bits costs ~20 min per file): its worker is driven on short files, its header selection on sparse files",
                     "file names with commas/newlines are outside the property (the CSV would be unparseable)", "the expected value is by definition the library's exported function (the report is under test, not the statistic)",
                     "schedules of worker / writer / walker goroutines are sampled (worker counts, GOMAXPROCS, pinned 'one worker, several files' shards) and additionally observed by race-detector builds of the binary and of the shim"],
 }
 
-RULES["C20"] = ("runs of the built rdgen binary from a fresh scratch working directory: s in 1..40 (300 thorough), n in {20000, 10^6, 8*k for k in 1..10000} (two 10^8 runs in thorough), output directory absent (documented default target/data) / relative / reused (a quarter of the cases first run rdgen into the same directory with another s and n: the files must end up with exactly the new size) / "
+RULES["C20"] = ("runs of the built rdgen binary from a fresh scratch working directory: s in 1..40 (300 thorough), n in {20000, 10^6, 8*k for k in 1..10000} (two 10^8 runs in thorough; three deterministic runs with 1000..3000 files (x5 thorough) under the usual descriptor limit of 1024), output directory absent (documented default target/data) / relative / reused (a quarter of the cases first run rdgen into the same directory with another s and n: the files must end up with exactly the new size) / "
                 "./x/b/c not existing / absolute / pre-existing with foreign files / path with '..'; a third of the directory names contain spaces, '%', dots, dashes, '+=,@#~' or non-ASCII characters; NumCPU (= writer goroutines) 1, 3 or 16 via taskset, GOMAXPROCS 0/1/2. oracle: exit 0; a census of the whole scratch directory finds exactly random0.bin..random(s-1).bin "
                 "in the requested directory (foreign files untouched, nothing anywhere else), each n/8 bytes, pairwise different and not all-zero when n >= 128; for n in {20000,10^6,10^8} the detector's counting pass (toBeTestFileNum through the shim) "
                 "reports (s, n). non-trivial: -o given and s > 1. distinct: hash of the case JSON.")
 PROPS["C20"] = {
     "level": "exploration",
     "need": ["rdgen", "shim"],
-    "quick": shards(6, "TestC20", 60, floor=15),
-    "thorough": shards(8, "TestC20", 600, floor=150, timeout=3400) + [S("TestC20Big", floor=1)],
+    "quick": shards(6, "TestC20", 60, floor=15) + [S("TestC20Many", floor=3)],
+    "thorough": shards(8, "TestC20", 600, floor=150, timeout=3400) + [S("TestC20Big", floor=1), S("TestC20Many", floor=3, env={"VERIF_SCALE_S": 5}, timeout=3400)],
     "assumptions": ["directory permission bits (MkdirAll(..., 0600)) are invisible when running as root and are not asserted",
                     "contents come from crypto/rand: equality of two files or an all-zero file is treated as impossible for n >= 128"],
 }
